@@ -1,1 +1,178 @@
-"""placeholder"""
+"""C05 - ephemeral listeners never hold up or alter the synchronized stream (necessary structural conditions)."""
+
+from __future__ import annotations
+
+import ast
+import re
+
+from . import rule
+from .zmq import anchors, Z, ret_const, stmt_list_containing
+from .c01 import sync_region, summary_region
+from .c04 import client_loop_paths, field_fact, timed_out
+from ..model import Unresolved, walk_scope, parent, enclosing_function, qualname
+from ..paths import U, Path, Evaluator
+from .. import q
+
+
+@rule('C05.R1', 'an ephemeral client never forces do_send / out_do_send false, whatever its requested mark')
+def r1(rr, repo):
+    za = anchors(repo)
+    loop, paths = client_loop_paths(za)
+    rr.paths += len(paths)
+    n = 0
+    for p in paths:
+        to, _ = timed_out(za, p)
+        if to or to is None:
+            continue
+        eph = field_fact(za, p, 'ephemeral')
+        bal = p.facts.get('truthy(self.balance)')
+        if bal is False and eph is True:
+            n += 1
+            blocks = [e for e in p.events if e.kind == 'bind' and e.term == 'do_send' and e.args[0] == 'False']
+            rr.ob('unbalanced: an ephemeral client does not block the send', not blocks, za.mod, blocks[0].node if blocks else loop, witness=p.pc_text(), key='eph-noblock')
+        if bal is False and eph is None and field_fact(za, p, 'requested') is False:
+            rr.violated('unbalanced: a client is judged without looking at its ephemeral mark', za.mod, loop, witness=p.pc_text(), key='eph-untested')
+    rr.floor('rows with an ephemeral client', n, 1, za.mod, loop)
+    # balanced form is the structural `out_do_send and (requested or ephemeral)` checked in C04.R2; restate the ephemeral disjunct
+    st = [e for p in paths for e in p.events if e.kind == 'store' and isinstance(e.value, ast.Tuple) and len(e.value.elts) == 3]
+    i_eph = za.client_fields.index('ephemeral')
+    for e in st[:1]:
+        first = e.value.elts[0]
+        ok = isinstance(first, ast.BoolOp) and any(isinstance(v, ast.BoolOp) and isinstance(v.op, ast.Or) and any(U(x).endswith(f'[1][{i_eph}]') for x in v.values) for v in first.values)
+        rr.ob("balanced: an ephemeral client keeps its output's out_do_send true", ok, za.mod, e.node, witness=U(first)[-120:], key='eph-bal')
+
+
+@rule('C05.R2', 'the fast-forward of the publisher id is unreachable for a request from an ephemeral client')
+def r2(rr, repo):
+    za = anchors(repo)
+    n = 0
+    for p in za.paths('poll'):
+        for e in p.events:
+            if e.kind == 'store' and e.term == 'self.min_send_id':
+                n += 1
+                ephs = [v for kk, v in p.pc[:e.pc_len] if kk.startswith('truthy(') and ".get('eph'" in kk]
+                rr.ob('fast-forward only under `not ephemeral` of the requesting client', bool(ephs) and ephs[-1] is False, za.mod, e.node, witness=p.pc_text(e.pc_len)[-300:], key='ff-not-eph')
+    rr.floor('fast-forward stores', n, 1, za.mod, za.S_poll)
+
+
+def _eph_rel(pc):
+    """relation of the ephemeral level vs 2 recorded in a path-condition prefix"""
+    rel = None
+    for kk, v in pc:
+        if kk.startswith('ord(2, '):
+            rel = {'<': '>', '>': '<', '=': '='}[v]
+        elif kk.startswith('ord(') and kk.endswith(', 2)'):
+            rel = v
+    return rel
+
+
+@rule('C05.R3', "'??' has no request channel: Sender.push is None for ephemeral >= 2 and every use of the push socket sits under ephemeral < 2")
+def r3(rr, repo):
+    za = anchors(repo)
+    uses = set()
+    # constructor
+    for p in za.paths('rs_init'):
+        for e in p.events:
+            if e.kind == 'store' and e.term == 'self.push':
+                v = e.value
+                rel = _eph_rel(p.pc[:e.pc_len])
+                if isinstance(v, ast.IfExp):
+                    ok = isinstance(v.orelse, ast.Constant) and v.orelse.value is None and '< 2' in U(v.test) and 'PUSH' in U(v.body)
+                elif isinstance(v, ast.Constant) and v.value is None:
+                    ok = rel in ('=', '>')
+                else:
+                    ok = 'PUSH' in U(v) and rel == '<'
+                rr.ob('the push socket exists only for ephemeral < 2 (else None)', ok, za.mod, e.node, witness=f'{U(v)[:80]} under {rel}', key='push-create')
+            if e.kind == 'call' and 'zmq.PUSH' in e.term and re.search(r'\)\.(\w+)$', e.term):
+                uses.add(id(e.node))
+                ok = _eph_rel(p.pc[:e.pc_len]) == '<'
+                rr.ob('constructor touches the push socket only under ephemeral < 2', ok, za.mod, e.node, witness=p.pc_text(e.pc_len)[-200:], key='push-use-init')
+    for fn, label in ((za.RS_send_push, 'send_push'), (za.R_destroy, 'destroy')):
+        ev = za.ev(unroll_for=1)
+        ps = ev.run(fn.body)
+        rr.paths += len(ps)
+        for p in ps:
+            for e in p.events:
+                if e.kind == 'call' and '.push.' in e.term:
+                    uses.add(id(e.node))
+                    recv = e.term[:e.term.index('.push.')]
+                    rel = q.order(p, f'{recv}.ephemeral', '2')
+                    pcs = dict(p.pc[:e.pc_len])
+                    rel_at = None
+                    for kk, v in p.pc[:e.pc_len]:
+                        if kk in (f'ord(2, {recv}.ephemeral)',):
+                            rel_at = {'<': '>', '>': '<', '=': '='}[v]
+                        elif kk == f'ord({recv}.ephemeral, 2)':
+                            rel_at = v
+                    rr.ob(f'{label}: the push socket is used only under ephemeral < 2', rel_at == '<', za.mod, e.node, witness=p.pc_text(e.pc_len)[-200:], key=f'push-use|{label}')
+    # any other attribute use of .push in the module
+    known_fns = {za.RS_init, za.RS_send_push, za.R_destroy}
+    for n in ast.walk(za.mod.tree):
+        if isinstance(n, ast.Attribute) and n.attr == 'push' and isinstance(n.ctx, ast.Load) and isinstance(parent(n), ast.Attribute):
+            fn = enclosing_function(n)
+            if fn not in known_fns:
+                rr.violated('the push socket is used outside the functions that guard it with ephemeral < 2', za.mod, n, key=f'push-use-other|{qualname(n)}')
+    rr.floor("uses of the push socket examined", len(uses), 7, za.mod, za.R_Sender)
+
+
+@rule('C05.R4', 'ephemeral sources are tracked per source and all-or-nothing: own expected id, skip on older, adopt after accept; they neither trigger nor receive resets')
+def r4(rr, repo):
+    za = anchors(repo)
+    sync, slst, eph, elst = sync_region(za)
+    rr.ob('an ephemeral source is compared against its own expected id (sender.min_recv_id)', isinstance(eph.args[0], ast.Attribute) and eph.args[0].attr == 'min_recv_id', za.mod, eph, key='eph-own-id')
+    ev = za.ev()
+    ps = ev.run(elst, za.start(za.R_once))
+    rr.paths += len(ps)
+    n = 0
+    for p in ps:
+        nones = [v for kk, v in p.pc if kk.startswith('isnone(process_msg(')]
+        if nones and nones[0] is False or not nones and p.outcome is None:
+            n += 1
+            st = [e for e in p.events if e.kind == 'store' and e.term.endswith('.min_recv_id')]
+            rr.ob('after accepting a message the ephemeral source adopts its id', bool(st) and st[-1].args[0] == za.r_mid, za.mod, st[-1].node if st else eph, witness=p.pc_text(), key='eph-adopt')
+        resets = [e for e in p.events if e.kind == 'call' and e.term.endswith('.new_recv') and '__elem__' in e.term]
+        binds = [e for e in p.events if e.kind == 'bind' and e.term == sync.args[0].id]
+        rr.ob('a message from an ephemeral source never resets other sources nor moves the shared expected id', not resets and not binds, za.mod,
+              (resets or binds or [None])[0].node if (resets or binds) else eph, witness=p.pc_text(), key='eph-no-trigger')
+    rr.floor('accepting paths of the ephemeral branch', n, 1, za.mod, eph)
+    for p in ps:
+        nones = [v for kk, v in p.pc if kk.startswith('isnone(process_msg(')]
+        if nones and nones[0] is True:
+            rr.ob('a discarded message of an ephemeral source is skipped', p.outcome is not None and p.outcome[0] == 'continue' and not any(e.kind == 'store' and e.term.endswith('.min_recv_id') for e in p.events),
+                  za.mod, eph, witness=f'{p.pc_text()} => {p.outcome_text()}', key='eph-skip')
+    # an ephemeral source is never the target of a reset triggered by a synchronized one
+    ev2 = za.ev()
+    for p in ev2.run(slst, za.start(za.R_once)):
+        e_eph = [v for kk, v in p.facts.items() if kk.startswith('truthy(__elem__') and kk.endswith('.ephemeral)')]
+        isself = [v for kk, v in p.facts.items() if kk.startswith('is(') and '__elem__' in kk]
+        resets = [e for e in p.events if e.kind == 'call' and e.term.endswith('.new_recv') and '__elem__' in e.term and not e.args]
+        if resets and not (e_eph and e_eph[0] is False):
+            rr.violated('a reset triggered by a synchronized source reaches a source whose ephemeral mark was not tested false', za.mod, resets[0].node, witness=p.pc_text(), key='eph-reset-target')
+    from .c01 import r6 as c01r6
+    c01r6(rr, repo)
+    # the branch that hosts the ephemeral call is selected by the source's ephemeral mark
+    g = q.guards_of(q.enclosing_stmt(eph), stop=za.R_once)
+    gs = q.guards_of(q.enclosing_stmt(sync), stop=za.R_once)
+    okb = any(pol and 'eph' in U(t) for t, pol in g) and any((not pol) and 'eph' in U(t) for t, pol in gs)
+    rr.ob('per-source tracking is selected by sender.ephemeral, shared tracking by its negation', okb, za.mod, q.enclosing_stmt(eph), key='eph-branch')
+
+
+@rule('C05.R5', 'ephemeral sources do not carry the balanced mark and a balanced receiver rejects ephemeral sources')
+def r5(rr, repo):
+    za = anchors(repo)
+    binds = [n for n in ast.walk(za.R_once) if isinstance(n, ast.NamedExpr) and isinstance(n.target, ast.Name) and "'bal'" in U(n.value)]
+    rr.floor("bindings of the message's balanced mark", len(binds), 1, za.mod, za.R_once)
+    for b in binds:
+        v = b.value
+        ok = isinstance(v, ast.BoolOp) and isinstance(v.op, ast.And) and isinstance(v.values[0], ast.UnaryOp) and isinstance(v.values[0].op, ast.Not) and 'eph' in U(v.values[0])
+        rr.ob('the balanced mark of a message is ignored for ephemeral sources (not sender_eph and ...)', ok, za.mod, b, witness=U(v), key='bal-not-eph')
+    ev = za.ev(unroll_for=1)
+    ps = ev.run(za.R_init.body)
+    n = 0
+    for p in ps:
+        eph = [v for kk, v in p.pc if kk.startswith('truthy(') and kk.endswith('.ephemeral)')]
+        if p.facts.get('truthy(balance)') is True and eph and eph[-1] is True:
+            n += 1
+            rr.ob('constructing a balanced receiver with an ephemeral source raises', p.outcome is not None and p.outcome[0] == 'raise', za.mod, za.R_init, witness=f'{p.pc_text()} => {p.outcome_text()}', key='bal-eph-raise')
+    if not n:
+        rr.violated('the constructor does not look at (balance and sender.ephemeral) at all', za.mod, za.R_init, key='bal-eph-untested')
